@@ -175,3 +175,8 @@ def np_kind(dt):
     import numpy as np
 
     return np.dtype(dt).kind if dt else "?"
+
+
+@predicate("C11-pow-shortcut-dtype")
+def _c11_pow(case, mm):
+    return case.get("fam") == "pow_special" and mm.kind == "spelling_differs" and "dtype" in mm.detail
